@@ -140,3 +140,58 @@ def run(ctx, rep, tier):
     _run_i(ctx, rep, tier)
     from .c05 import check_getitem_contract
     check_getitem_contract(ctx, rep, "C09.g")
+
+
+# ---------------------------------------------------------------------------------------------------------------- C09.h / C09.i
+def _loop_back_and_proxy_first(ctx, rep, tier):
+    import ast, re
+    from ..srcmodel import walk_no_nested, raised_class
+    model = ctx.model
+    # C09.h: the loop-back edge gets the same conflict test as a join
+    rep.rule("C09.h", "loop-back edge: a byte on which an end state of the body continues (Else widened by the end state's foreign-else definition w.r.t. the loop start) must not "
+                      "start the next iteration - refused, not resolved")
+    fq = "LoopNode.convert"
+    fn = model.func(fq)
+    outer = [n for n in walk_no_nested(fn) if isinstance(n, ast.For) and ast.unparse(n.iter) == "sub_dfa.accepting_states" and
+             any(isinstance(x, ast.For) and ast.unparse(x.iter).endswith(".all_transitions()") for x in n.body)]
+    ok = False
+    why = "no test of the continuing transitions of the body's end states against the loop start"
+    for o in outer:
+        av = ast.unparse(o.target)
+        for inner in [x for x in o.body if isinstance(x, ast.For)]:
+            tv = ast.unparse(inner.target)
+            src = ast.unparse(inner)
+            skip_err = any(isinstance(s, ast.If) and ast.unparse(s.test) == f"{tv}.error_handling" and isinstance(s.body[-1], ast.Continue) for s in inner.body)
+            widen = re.search(r"if DFTransition\.Else in (\w+):\s+\1\.update\(%s\.compute_foreign_else_definition\((\w+)\)\)" % re.escape(av), src)
+            init = re.search(r"(\w+) = set\(%s\.on_values\)" % re.escape(tv), src)
+            symloop = [x for x in inner.body if isinstance(x, ast.For) and init and ast.unparse(x.iter) == init.group(1)]
+            if not (skip_err and widen and init and widen.group(1) == init.group(1) and symloop):
+                continue
+            startv = widen.group(2)
+            rep.check(model.has(fq, f"{startv} = sub_dfa.starting_state"), "C09.h", fq, "widening is relative to the body's start state", "loop start binding changed")
+            sl = symloop[0]
+            sv = ast.unparse(sl.target)
+            ssrc = ast.unparse(sl)
+            plain = re.search(r"(\w+) = %s\[%s\]\s+(\w+) = \1 is not None and \(?not \1\.error_handling\)? and \(?\1\.target != %s\.target\)?" % (re.escape(startv), re.escape(sv), re.escape(tv)), ssrc)
+            raises = [r for r in ast.walk(sl) if isinstance(r, ast.Raise)]
+            good_raise = len(raises) == 1 and model.is_subclass(raised_class(raises[0]) or "", "NMFUError") and plain is not None and \
+                isinstance(model.parents.get(raises[0]), ast.If) and ast.unparse(model.parents[raises[0]].test) == plain.group(2)
+            ok = plain is not None and good_raise
+            why = "the conflict test / raise of the loop-back check changed" if not ok else ""
+    rep.check(ok, "C09.h", fq, "continuing byte that also starts the next iteration raises", f"{why}: `loop {{ /a(ab)*/; }}` is accepted and the second `a` of \"aa\" is silently taken as the start of \"ab\"")
+    # C09.i: proxy starts: (valid, to-else) partition
+    rep.rule("C09.i", "DFProxyState.equivalent_on_values returns disjoint sets: a symbol that some frontier state handles validly is not also reported as always-error")
+    eq = "DFProxyState.equivalent_on_values"
+    okp = model.has(eq, "if not state[possible].error_handling:\n    filtered.add(possible)") and model.has(eq, "encountered.update(filtered)\ncandidate_else.difference_update(filtered)\nreturn (encountered, candidate_else)")
+    rep.check(okp, "C09.i", eq, "symbols valid in some branch are moved from the always-error set to the valid set", "a symbol that is an error in one branch but valid in another stays in both sets: "
+              "append_after then marks the fake start's Else as an error path and skips the join check for it (`/[ef]+/; if c { \"xyz\"; } else { /[^q]z/; }` is accepted)")
+    okq = model.has(eq, "if t.error_handling:\n    candidate_else.update(t.on_values)\nelse:\n    encountered.update(t.on_values)")
+    rep.check(okq, "C09.i", eq, "frontier transitions are classified by their error mark", "classification of frontier transitions changed")
+
+
+_run_j = run
+
+
+def run(ctx, rep, tier):
+    _run_j(ctx, rep, tier)
+    _loop_back_and_proxy_first(ctx, rep, tier)
